@@ -5,8 +5,12 @@ import (
 	"encoding/hex"
 	"fmt"
 	"net"
+	"runtime"
+	"sort"
 	"strconv"
 	"strings"
+	"sync"
+	"sync/atomic"
 	"testing"
 	"time"
 )
@@ -102,6 +106,9 @@ func vC17Gen(e *vEnv, r *vRand) []vCase {
 				ops = append(ops, fmt.Sprintf("check %d %s %s", now, vAddrToken(addr), vEnc(act)))
 			case k == 2 && twoPhase:
 				ops = append(ops, fmt.Sprintf("throttle %d %s %s", now-int64(rr.intn(3))*vSec, vAddrToken(addr), vEnc(act)))
+			case k == 3 || (k == 4 && rr.chance(1, 2)):
+				// several connections of one address fail at the same moment
+				ops = append(ops, vC17Par(rr, now, addr, act))
 			case k < 6:
 				// burst of failures from one address
 				b := 1 + rr.intn(12)
@@ -120,6 +127,50 @@ func vC17Gen(e *vEnv, r *vRand) []vCase {
 		}
 		cases = append(cases, vCase{Ops: ops})
 	}
+	// concurrent failures around the blocking threshold: k failures one after the other, then n at once
+	// (k + n below, at and above ten), then attempts that must (not) be refused, then a random tail
+	for i := 0; i < e.scale(60, 600); i++ {
+		rr := r.fork()
+		var ops []string
+		now := int64(rr.intn(1000)) * vSec
+		addr := rr.pick(vC17Addrs)
+		act := rr.pick(vC17Actions)
+		k := rr.intn(11)
+		for j := 0; j < k; j++ {
+			ops = append(ops, fmt.Sprintf("attempt %d %s %s 1", now, vAddrToken(addr), vEnc(act)))
+			now += int64(rr.intn(3)) * vSec
+		}
+		n := 1 + rr.intn(12)
+		if rr.chance(1, 2) && k < 10 {
+			n = 10 - k + rr.intn(3) - 1
+			if n < 1 {
+				n = 1
+			}
+		}
+		ops = append(ops, fmt.Sprintf("par %d %s %s %d %d %d", now, vAddrToken(addr), vEnc(act), n, rr.intn(3), rr.intn(2)*rr.intn(4)))
+		for j := 0; j < 1+rr.intn(6); j++ {
+			switch rr.intn(5) {
+			case 0:
+				now += 30*vMin - 2*vSec + int64(rr.intn(5))*vSec
+			case 1:
+				now += int64(rr.intn(40)) * vMin
+			case 2:
+				now += 12*vHour - 31*vMin + int64(rr.intn(62))*vMin
+			default:
+				now += int64(rr.intn(5)) * vSec
+			}
+			other := addr
+			if rr.chance(1, 4) {
+				other = rr.pick(vC17Addrs)
+			}
+			if rr.chance(1, 3) {
+				ops = append(ops, vC17Par(rr, now, other, act))
+			} else {
+				ops = append(ops, fmt.Sprintf("attempt %d %s %s %d", now, vAddrToken(other), vEnc(act), rr.intn(2)))
+			}
+		}
+		cases = append(cases, vCase{Ops: ops, Tags: []string{"par"}})
+	}
 	// key sharing of getThrottleIp, all pairs of the address pool
 	var ops []string
 	for _, a := range vC17Addrs {
@@ -131,18 +182,49 @@ func vC17Gen(e *vEnv, r *vRand) []vCase {
 	return cases
 }
 
+// vC17Par: "par <now> <addr> <action> <n> <mode> <m>" — n connections of one address pass the check, then
+// their failures are recorded by n goroutines at once, while m further connections of that address are
+// being checked.  mode = how the goroutines are let loose: 0 a closed channel, 1 / 2 they pile up at the
+// throttler's mutex, which the harness holds for writing / for reading until all have arrived.
+func vC17Par(rr *vRand, now int64, addr, act string) string {
+	n := 2 + rr.intn(5)
+	switch rr.intn(6) {
+	case 0:
+		n = 10
+	case 1:
+		n = 8 + rr.intn(10)
+	}
+	return fmt.Sprintf("par %d %s %s %d %d %d", now, vAddrToken(addr), vEnc(act), n, rr.intn(3), rr.intn(2)*rr.intn(4))
+}
+
+func vC17List(pfx string, xs []int64) string {
+	if len(xs) == 0 {
+		return pfx + "-"
+	}
+	q := make([]string, len(xs))
+	for i, x := range xs {
+		q[i] = strconv.FormatInt(x, 10)
+	}
+	return pfx + strings.Join(q, ",")
+}
+
 func vC17Exec(t *testing.T, c *vCase) {
 	var now time.Time
 	var lastDelay time.Duration
 	delayed := false
+	var delayMu sync.Mutex
+	var delays []int64
 	th := &memoryThrottler{
 		getNow:  func() time.Time { return now },
 		clients: make(map[string]map[string][]throttleEntry),
 		closer:  NewCloser(),
 	}
 	th.doDelay = func(ctx context.Context, d time.Duration) {
+		delayMu.Lock()
+		defer delayMu.Unlock()
 		lastDelay = d
 		delayed = true
+		delays = append(delays, int64(d))
 	}
 	ctx := context.Background()
 	for _, line := range c.Ops {
@@ -190,6 +272,96 @@ func vC17Exec(t *testing.T, c *vCase) {
 			} else {
 				out = "none"
 			}
+		case "par":
+			// Observed at rest only: whatever order the scheduler chose must give the same table.
+			if len(f) != 7 {
+				break
+			}
+			ns, _ := strconv.ParseInt(f[1], 10, 64)
+			now = vC17Base.Add(time.Duration(ns))
+			addr := vAddrFromToken(f[2])
+			act := vDec(f[3])
+			n, _ := strconv.Atoi(f[4])
+			mode := f[5]
+			m, _ := strconv.Atoi(f[6])
+			var fns []ThrottleFunc
+			for i := 0; i < n || i < 1; i++ {
+				if fn, err := th.CheckBruteforce(ctx, addr, act); err == nil && i < n {
+					fns = append(fns, fn)
+				}
+			}
+			delays = nil
+			var wg sync.WaitGroup
+			var arrived atomic.Int32
+			start := make(chan struct{})
+			switch mode {
+			case "1":
+				th.mu.Lock()
+			case "2":
+				th.mu.RLock()
+			}
+			if len(fns) == 0 {
+				m = 0
+			}
+			// a further connection is checked meanwhile (its outcome depends on the interleaving)
+			check := func(context.Context) { th.CheckBruteforce(ctx, addr, act) } // nolint
+			var jobs []ThrottleFunc
+			for i, fn := range fns {
+				if len(jobs)-i < m && i%2 == 0 {
+					jobs = append(jobs, check)
+				}
+				jobs = append(jobs, fn)
+			}
+			for len(jobs) < len(fns)+m {
+				jobs = append(jobs, check)
+			}
+			for _, job := range jobs {
+				wg.Add(1)
+				go func(job ThrottleFunc) {
+					defer wg.Done()
+					if mode != "1" && mode != "2" {
+						<-start
+					}
+					arrived.Add(1)
+					job(ctx)
+				}(job)
+			}
+			if mode == "1" || mode == "2" {
+				for arrived.Load() < int32(len(fns)+m) {
+					runtime.Gosched()
+				}
+				// let them run into the mutex
+				for i := 0; i < 20; i++ {
+					runtime.Gosched()
+				}
+				time.Sleep(50 * time.Microsecond)
+				if mode == "1" {
+					th.mu.Unlock()
+				} else {
+					th.mu.RUnlock()
+				}
+			} else {
+				close(start)
+			}
+			wg.Wait()
+			_, err := th.CheckBruteforce(ctx, addr, act)
+			var recs []int64
+			young := 0
+			for _, en := range th.getEntries(addr, act) {
+				recs = append(recs, int64(en.ts.Sub(vC17Base)))
+				if now.Sub(en.ts) <= 12*time.Hour {
+					young++
+				}
+			}
+			delayMu.Lock()
+			ds := append([]int64{}, delays...)
+			delayMu.Unlock()
+			sort.Slice(ds, func(i, j int) bool { return ds[i] < ds[j] })
+			blocked := 0
+			if err != nil {
+				blocked = 1
+			}
+			out = fmt.Sprintf("rest %d %d %d %s %s", len(fns), young, blocked, vC17List("d:", ds), vC17List("r:", recs))
 		case "keyeq":
 			if getThrottleIp(vAddrFromToken(f[1])) == getThrottleIp(vAddrFromToken(f[2])) {
 				out = "1"
